@@ -20,8 +20,11 @@ import (
 	"github.com/bfenetworks/bfe/bfe_module"
 	"github.com/bfenetworks/bfe/bfe_modules/mod_block"
 	"github.com/bfenetworks/bfe/bfe_modules/mod_geo"
+	"github.com/bfenetworks/bfe/bfe_modules/mod_header"
 	"github.com/bfenetworks/bfe/bfe_modules/mod_redirect"
 	"github.com/bfenetworks/bfe/bfe_modules/mod_rewrite"
+	"github.com/bfenetworks/bfe/bfe_modules/mod_tag"
+	"github.com/bfenetworks/bfe/bfe_modules/mod_trust_clientip"
 	"github.com/bfenetworks/bfe/bfe_route"
 	"github.com/bfenetworks/bfe/bfe_server"
 )
@@ -241,7 +244,6 @@ func stress(n int) string {
 	}
 	return "ok cur=" + snapVersion(newReq(srv))
 }
-
 
 // ---- serve: ONE request through the real ReverseProxy.ServeHTTP with reloads landing in the middle of it ------
 //
@@ -524,10 +526,11 @@ func genBalReload(r *vh.Rand) string {
 const modIP = "123.114.119.152"
 
 type modDrv struct {
-	reload func(v int) error
-	take   func() interface{}
-	use    func(snap interface{}) string
-	handle func() string
+	reloadPath func(path string) error
+	reload     func(v int) error
+	take       func() interface{}
+	use        func(snap interface{}) string
+	handle     func() string
 }
 
 func modReq() *bfe_basic.Request {
@@ -558,14 +561,16 @@ func newModDrv(name string) *modDrv {
 	case "geo":
 		m := mod_geo.NewModuleGeo()
 		return &modDrv{
-			reload: func(v int) error { return m.VerifC15Reload(mod_geo.VerifC15DataFile()) },
-			take:   func() interface{} { return m.VerifC15Take() },
-			use:    func(s interface{}) string { return mod_geo.VerifC15Use(s, modIP) },
-			handle: func() string { return m.VerifC15Handle(modIP) },
+			reloadPath: m.VerifC15Reload,
+			reload:     func(v int) error { return m.VerifC15Reload(mod_geo.VerifC15DataFile()) },
+			take:       func() interface{} { return m.VerifC15Take() },
+			use:        func(s interface{}) string { return mod_geo.VerifC15Use(s, modIP) },
+			handle:     func() string { return m.VerifC15Handle(modIP) },
 		}
 	case "block":
 		m := mod_block.NewModuleBlock()
 		return &modDrv{
+			reloadPath: m.VerifC15Reload,
 			reload: func(v int) error {
 				return m.VerifC15Reload(modFile("block.data", fmt.Sprintf(`{"Version":"%d","Config":{"p":[{"action":{"cmd":"ALLOW","params":[]},"name":"%d","cond":"default_t()"}]}}`, v, v)))
 			},
@@ -576,6 +581,7 @@ func newModDrv(name string) *modDrv {
 	case "redirect":
 		m := mod_redirect.NewModuleRedirect()
 		return &modDrv{
+			reloadPath: m.VerifC15Reload,
 			reload: func(v int) error {
 				return m.VerifC15Reload(modFile("redirect.data", fmt.Sprintf(`{"Version":"%d","Config":{"p":[{"Cond":"default_t()","Actions":[{"Cmd":"URL_SET","Params":["%d"]}],"Status":301}]}}`, v, v)))
 			},
@@ -583,10 +589,66 @@ func newModDrv(name string) *modDrv {
 			use:    func(s interface{}) string { return m.VerifC15Use(s, modReq()) },
 			handle: func() string { return m.VerifC15Handle(modReq()) },
 		}
+	case "header":
+		m := mod_header.NewModuleHeader()
+		val := func(r *bfe_basic.Request) string {
+			if v := r.HttpRequest.Header.Get("X-V"); v != "" {
+				return v
+			}
+			return "-"
+		}
+		return &modDrv{
+			reloadPath: m.VerifC15Reload,
+			reload: func(v int) error {
+				return m.VerifC15Reload(modFile("header.data", fmt.Sprintf(`{"Version":"%d","Config":{"p":[{"cond":"default_t()","actions":[{"cmd":"REQ_HEADER_SET","params":["X-V","%d"]}],"last":true}]}}`, v, v)))
+			},
+			take:   func() interface{} { return m.VerifC15Take("p") },
+			use:    func(s interface{}) string { r := modReq(); m.VerifC15Use(s, r); return val(r) },
+			handle: func() string { r := modReq(); m.VerifC15Handle(r); return val(r) },
+		}
+	case "tag": // no take/use split: the handler body is one piece
+		m := mod_tag.NewModuleTag()
+		return &modDrv{
+			reloadPath: m.VerifC15Reload,
+			reload: func(v int) error {
+				return m.VerifC15Reload(modFile("tag.data", fmt.Sprintf(`{"Version":"%d","Config":{"p":[{"Cond":"default_t()","Param":{"TagName":"v","TagValue":"%d"},"Last":true}]}}`, v, v)))
+			},
+			handle: func() string {
+				r := modReq()
+				r.Tags.TagTable = make(map[string][]string)
+				m.VerifC15Handle(r)
+				if t := r.Tags.TagTable["v"]; len(t) == 1 {
+					return t[0]
+				}
+				return "-"
+			},
+		}
+	case "trust": // mod_trust_clientip: version v trusts exactly 10.0.v.0/24
+		m := mod_trust_clientip.NewModuleTrustClientIP()
+		return &modDrv{
+			reloadPath: m.VerifC15Reload,
+			reload: func(v int) error {
+				return m.VerifC15Reload(modFile("trust.data", fmt.Sprintf(`{"Version":"%d","Config":{"src":[{"Begin":"10.0.%d.0","End":"10.0.%d.255"}]}}`, v, v, v)))
+			},
+			handle: func() string {
+				out := "-"
+				for k := 0; k < 40; k++ {
+					s := &bfe_basic.Session{RemoteAddr: &net.TCPAddr{IP: net.IPv4(10, 0, byte(k), 7), Port: 1}}
+					if m.VerifC15Handle(s) {
+						if out != "-" {
+							return "many"
+						}
+						out = strconv.Itoa(k)
+					}
+				}
+				return out
+			},
+		}
 	case "rewrite":
 		m := mod_rewrite.NewModuleReWrite()
 		strip := func(p string) string { return strings.TrimPrefix(p, "/") }
 		return &modDrv{
+			reloadPath: m.VerifC15Reload,
 			reload: func(v int) error {
 				return m.VerifC15Reload(modFile("rewrite.data", fmt.Sprintf(`{"Version":"%d","Config":{"p":[{"Cond":"default_t()","Actions":[{"Cmd":"PATH_SET","Params":["/%d"]}],"Last":true}]}}`, v, v)))
 			},
@@ -597,6 +659,10 @@ func newModDrv(name string) *modDrv {
 	}
 	return nil
 }
+
+func geoReloadBad(d *modDrv) error { return d.reloadPath(filepath.Join(dir(), "no-such-geo.db")) }
+
+func reloadFile(name string, d *modDrv, path string) error { return d.reloadPath(path) }
 
 func modRun(body string) string {
 	i := strings.IndexByte(body, ' ')
@@ -630,10 +696,24 @@ func modRun(body string) string {
 			if err := d.reload(n); err != nil {
 				out = append(out, st+"=failed")
 			}
+		case 'B': // a reload with a broken data file: must be rejected and leave everything as it was
+			bad := modFile("broken.data", `{"Version":"x","Config":{"p":[{"Cond":`)
+			var err error
+			switch name {
+			case "geo":
+				err = geoReloadBad(d)
+			default:
+				err = reloadFile(name, d, bad)
+			}
+			if err == nil {
+				out = append(out, st+"=accepted")
+			}
 		case 'T':
-			snaps[n] = d.take()
+			if d.take != nil {
+				snaps[n] = d.take()
+			}
 		case 'U':
-			if s, ok := snaps[n]; ok {
+			if s, ok := snaps[n]; ok && d.use != nil {
 				v := d.use(s)
 				if name == "geo" && v == "CN" {
 					v = "ok"
